@@ -321,11 +321,23 @@ impl ShardSplitter {
     async fn run_cutover(&self, progress: &mut SplitProgress) -> Result<()> {
         let old_shard = &progress.old_shard.clone();
 
-        let split_state = self
-            .metadata
-            .get_split_state(old_shard)
-            .await?
-            .ok_or_else(|| crate::Error::Internal("No split in progress".to_string()))?;
+        let split_state = match self.metadata.get_split_state(old_shard).await? {
+            Some(state) => state,
+            // The last cut-over step removes the split state. If every recorded
+            // sub-step is done and the state is gone, a previous run was
+            // interrupted after that step but before the phase was recorded.
+            None if progress.shard_a_created
+                && progress.shard_b_created
+                && progress.old_shard_deactivated =>
+            {
+                info!(
+                    "Cutover already complete (fence={}), nothing left to do",
+                    progress.fence_token
+                );
+                return Ok(());
+            }
+            None => return Err(crate::Error::Internal("No split in progress".to_string())),
+        };
 
         if split_state.new_shards.len() != 2 {
             return Err(crate::Error::Internal(format!(
